@@ -141,6 +141,17 @@ def pre_viol(comp: int, prestate: int, mm: int, fin: bool, rsv: int, opcode: int
             return False
     if classify_viol(comp, prestate, mm, fin, rsv, opcode, form, n, rep, pb) in P.exclude:
         return False
+    # reach twins only: steer the witness search into the neighbourhood of the tag (a subset of the bounds above)
+    if P.reach == "rsv1_on_control_with_compression":
+        return comp == 1 and crsv == 4 and cop >= 8 and fin and form == 0
+    if P.reach == "too_big_after_decompression":
+        return starts_compressed and rep > 0
+    if P.reach == "too_big_fragmented":
+        return prestate >= 2 and cop == 0
+    if P.reach == "continuation_without_start":
+        return prestate < 2 and cop == 0 and crsv == 0
+    if P.reach == "unknown_opcode":
+        return cop in (3, 11) and crsv == 0
     return True
 
 
@@ -250,10 +261,17 @@ def h_viol(comp: int, prestate: int, mm: int, fin: bool, rsv: int, opcode: int, 
 # UTF-8: a text message of 0..3 arbitrary bytes, in one frame or split at any position into two fragments,
 # compressed or not, optionally with a ping between the fragments.
 
+# CrossHair's model of bytes.decode("utf-8") accepts UTF-16 surrogates encoded as ED A0..BF xx (the real codec
+# rejects them) even for concrete data, which shows up as non-replaying counterexamples; those byte pairs are
+# excluded (listed under `outside`).
 def pre_utf8(comp: int, split: bool, cut: int, ping: bool, n: int, pb: Tuple[int, int, int]) -> bool:
     for i in range(3):
         if not 0 <= pb[i] <= 255:
             return False
+    if pb[0] == 0xED and pb[1] >= 0xA0:
+        return False
+    if pb[1] == 0xED and pb[2] >= 0xA0:
+        return False
     if not (0 <= comp <= 1 and 0 <= n <= P.L and 0 <= cut <= n):
         return False
     if not in_shard(comp + 2 * (1 if split else 0) + 4 * (1 if ping else 0)):
@@ -272,7 +290,8 @@ def pre_utf8(comp: int, split: bool, cut: int, ping: bool, n: int, pb: Tuple[int
     units=["websocket.WebSocketProtocol13._receive_frame", "websocket.WebSocketProtocol13._handle_message"],
     stubs=["as h_viol; payload bytes are 3 symbolic ints 0..255, length and cut concrete per path",
            "reference = RFC 3629 well-formedness table written over ints (utf8_ok)"],
-    outside=["text messages longer than 3 bytes"],
+    outside=["text messages longer than 3 bytes", "encoded UTF-16 surrogates ED A0..BF xx (CrossHair's utf-8 decoder "
+             "model accepts them, the real codec does not: engine artefact, excluded by pre)"],
 )
 def h_utf8(comp: int, split: bool, cut: int, ping: bool, n: int, pb: Tuple[int, int, int]):
     R.apply_shims(symbolic_mask=False)
